@@ -97,13 +97,40 @@ inductive Who
   | arg | cached | cachedMissing
 deriving Repr, DecidableEq
 
-/-- EVERY `#[cleanup]` variant of `BorshAccount` (`borsh_account.rs` 35-113). `drained` = the account
-holds no lamports (it was closed earlier in this instruction): the only fact about lamports these
-variants need here (`refund_rent` on an account without lamports is `InsufficientFunds`; with a
-funded funder every other rent adjustment succeeds). -/
+/-- What the rent adjustments need to know about the account's lamports: none (closed earlier in this
+instruction), or exactly the rent minimum of `n` data bytes (`plenty` = far more than any reachable
+size). The rent minimum is strictly increasing in the size, so comparing sizes compares balances. -/
+inductive LamState
+  | zero
+  | rentOf (n : Nat)
+deriving Repr, DecidableEq
+
+def LamState.plenty : LamState := .rentOf 1000000
+
+/-- `refund_rent` (`single_set.rs`, since `/repo` 519a31c): below the minimum of the current size it
+leaves a ZERO balance alone and reports `InsufficientFunds` for a funded account. -/
+def LamState.refundFails (lam : LamState) (len : Nat) : Bool :=
+  match lam with
+  | .zero => false
+  | .rentOf n => decide (n < len)
+
+/-- The balance a successful rent adjustment leaves (a zero balance is never touched). -/
+def lamNext (op : RentOp) (lam : LamState) (len : Nat) : LamState :=
+  match lam with
+  | .zero => .zero
+  | .rentOf n =>
+    match op with
+    | .normalize => .rentOf len
+    | .receive => .rentOf (max n len)
+    | .refund => .rentOf (min n len)
+
+/-- EVERY `#[cleanup]` variant of `BorshAccount` (`borsh_account.rs` 35-113). `refundFails` = the
+lamports side of `refund_rent` fails (`LamState.refundFails` of the balance and the size after the
+write-back): the only outcome of the lamports-only adjustments that is not `Ok` (with a funded
+funder `normalize_rent` / `receive_rent` always succeed). -/
 inductive Cleanup
   | dflt                                               -- `()`: serialize, then `check_cleanup` (a no-op)
-  | rent (op : RentOp) (who : Who) (drained : Bool)    -- `NormalizeRent` / `ReceiveRent` / `RefundRent`, `<&X>` or `<()>`
+  | rent (op : RentOp) (who : Who) (refundFails : Bool)  -- `NormalizeRent` / `ReceiveRent` / `RefundRent`, `<&X>` or `<()>`
   | close (haveRecipient : Bool)                       -- `CloseAccount<()>`: NO write-back; recipient from the `Context`
 deriving Repr, DecidableEq
 
